@@ -11,6 +11,7 @@ import (
 	"bytes"
 	"encoding/json"
 	"fmt"
+	"math"
 	"os"
 	"os/exec"
 	"reflect"
@@ -568,6 +569,33 @@ func driveC06(c *driverCtx) error {
 		add(robustCase{Entry: "read", Schema: shapes[4], Bytes: append(append([]byte{}, cnt...), 0), Key: "C06|zero-byte-items|array-of-empty-record"})
 	}
 
+	// (3b) sized blocks (negative count + byte size) whose count AND size were altered together, for items of fixed
+	// width (a reader that cross-checks size = count * width must not be fooled by products that wrap)
+	{
+		big := func(v int64) []byte { return appendVar(nil, v) }
+		counts := []int64{-(1 << 61), -(1<<61 + 2), -(1 << 62), math.MinInt64, -6148914691236517207, -3074457345618258603, -1, -3, -(1 << 60), -(1<<61 + 1)}
+		sizes := []int64{0, 8, 16, 5, 24, 4, 1, 3, 1 << 62, math.MaxInt64}
+		for si, item := range []string{`"double"`, `"float"`, `"boolean"`, `{"type":"fixed","name":"F3","size":3}`, `"long"`, `"string"`} {
+			sj := `{"type":"record","name":"Top","fields":[{"name":"v","type":{"type":"array","items":` + item + `}},{"name":"z","type":"long"}]}`
+			for ci, cnt := range counts {
+				for zi, sz := range sizes {
+					if !c.thorough() && (ci+zi+si)%3 != 0 && !(zi < 4 && ci < 5) {
+						continue
+					}
+					var b []byte
+					b = append(b, big(cnt)...)
+					b = append(b, big(sz)...)
+					b = append(b, 1, 2, 3, 4, 5, 6, 7, 8, 9, 10, 11, 12, 13, 14, 15, 16, 0, 2)
+					entry := "read"
+					if (ci+zi)%4 == 3 {
+						entry = "skip"
+					}
+					add(robustCase{Entry: entry, Schema: sj, Var: (ci + zi) % 6, Bytes: b, Key: "C06|sized-block|count-and-size|" + entry})
+				}
+			}
+		}
+	}
+
 	// (4) schema text: valid documents, every truncation, single-character damage, wrong token kinds
 	docs := []string{
 		shapes[0], shapes[2],
@@ -591,6 +619,14 @@ func driveC06(c *driverCtx) error {
 		`{"type":5}`, `{"type":null}`, `{"type":["null"]}`, `[]`, `[[]]`, `{"type":"fixed","size":-1,"name":"F"}`, `{"type":"fixed","size":1e30,"name":"F"}`, `{"type":"fixed","size":"4","name":"F"}`,
 		`{"type":"record","fields":5}`, `{"type":"record","fields":[5]}`, `{"type":"record","fields":[{"name":5,"type":"long"}]}`, `{"type":"array","items":{"type":"array"}}`,
 		`{"type":"record","name":"R","fields":[{"name":"a","type":"array"}]}`, `{"type":"record","name":"R","fields":[{"name":"a","type":"R"}]}`, `5`, `null`, `true`, `""`, ``, ` `,
+		// named-type references (the library knows none: an error today; if they are ever resolved, a type that refers to
+		// itself by short name, by full name, through a union, an array or a map must not send the builder into a loop)
+		`{"type":"record","name":"Node","namespace":"com.example","fields":[{"name":"v","type":"long"},{"name":"next","type":["null","Node"]}]}`,
+		`{"type":"record","name":"Node","namespace":"com.example","fields":[{"name":"next","type":["null","com.example.Node"]}]}`,
+		`{"type":"record","name":"Node","fields":[{"name":"kids","type":{"type":"array","items":"Node"}}]}`,
+		`{"type":"record","name":"com.example.Node","fields":[{"name":"m","type":{"type":"map","values":"Node"}}]}`,
+		`{"type":"record","name":"A","namespace":"n","fields":[{"name":"b","type":{"type":"record","name":"B","fields":[{"name":"a","type":["null","A"]}]}}]}`,
+		`{"type":"record","name":"R","fields":[{"name":"f","type":{"type":"fixed","name":"F","size":2}},{"name":"g","type":"F"},{"name":"e","type":{"type":"enum","name":"E","symbols":["X"]}},{"name":"h","type":"E"}]}`,
 		strings.Repeat("[", 5000), strings.Repeat(`{"type":"array","items":`, 3000)} {
 		add(robustCase{Entry: "schema", Bytes: []byte(d), Key: "C06|schema|handwritten"})
 		add(robustCase{Entry: "codec", Schema: `{"type":"record","name":"Top","fields":[{"name":"v","type":` + d + `}]}`, Key: "C06|codec|handwritten"})
